@@ -284,7 +284,9 @@ class Harness:
         closed_early = False
         if fault == 'fpause':
             try:
-                report = self.reports.get(timeout=0.6)
+                # (a close() request left unread by a backend that is then killed turns the FIN into a RST: when the point
+                # lies inside a long transfer the harness waits for it instead of closing early)
+                report = self.reports.get(timeout=case.get('fpause_wait', 0.6))
             except queue.Empty:
                 w.close()
                 closed_early = True
@@ -419,7 +421,7 @@ class Harness:
         if case.get('linger_term') and linger != 'na':
             # the caller does not wait for the lingering child: it is force-terminated - after it has reported
             try:
-                r = w.terminate(timeout=0.3, force=True)
+                r = w.terminate(timeout=0, force=True)       # no patience at all: the forced branch runs
                 term_ret = 'T' if r is True else 'F' if r is False else 'other'
             except BaseException as e:  # noqa
                 term_ret = 'raised:' + type(e).__name__
